@@ -284,6 +284,50 @@ pub fn check(sc: &Scenario, ex: &mut Exec) -> (Verdict, Option<String>) {
             }
         }
     }
+    // I5: the cap seen before release. The per-key counts of distinct units the threshold noise is
+    // added to are taken after every unit has been limited to Cu groups, so their total is at most
+    // sum over units of min(Cu, number of key tuples the unit holds) - whoever shares the keys.
+    if violations.is_empty() {
+        for t in &scan.thresholds {
+            let n_cols = t.noise.plain.len();
+            let cols: Option<Vec<String>> = if n_cols == q.keys.len() {
+                Some(q.keys.iter().map(|k| k.alias.clone()).collect())
+            } else if n_cols == priv_cols.len() {
+                Some(priv_cols.clone())
+            } else {
+                None
+            };
+            let Some(cols) = cols else { continue };
+            let idx: Vec<usize> = cols.iter().filter_map(|c| hold.col(c)).collect();
+            if idx.len() != cols.len() {
+                continue;
+            }
+            let mut per_unit: BTreeMap<String, BTreeSet<Vec<String>>> = BTreeMap::new();
+            for r in &hold.rows {
+                per_unit.entry(r[uidx].key()).or_default().insert(idx.iter().map(|i| r[*i].key()).collect());
+            }
+            let bound: usize = per_unit.values().map(|s| s.len().min(sc.params.cu as usize)).sum();
+            let plan = DrawPlan::neutral(sc.engine_seed ^ 0x99).with_row_id(DrawMode::Inc).with_cap(DrawMode::Seeded);
+            if let Ok((rs, _)) = ex.query(&mut eng, "counts_after_cap", &pipeline::render(&t.noise.input), &plan) {
+                if let Some(ci) = rs.col(&t.column) {
+                    let total: f64 = rs.rows.iter().filter_map(|r| num(&r[ci])).sum();
+                    ex.stats.fault("cap_total_checked");
+                    if total > bound as f64 + 1e-9 {
+                        violations.push(Violation {
+                            property: "C04".into(),
+                            invariant: "cap_total_exceeded".into(),
+                            class: "unclassified".into(),
+                            detail: format!(
+                                "the per-key distinct-unit counts that the threshold noise is added to sum to {}, but with every unit limited to Cu = {} groups they can sum to at most {} ({} units)",
+                                total, sc.params.cu, bound, per_unit.len()
+                            ),
+                            witness: json!({"total": total, "bound": bound, "cu": sc.params.cu, "units": per_unit.len()}),
+                        });
+                    }
+                }
+            }
+        }
+    }
     let singleton = holders.values().any(|s| s.len() == 1);
     let shape = mini_shape(
         sc,
